@@ -3,9 +3,8 @@ import Driver.Util
 namespace Driver.C10
 open Placement
 
-/-- state = the cluster of the last `reset`: hosts in the order given (tokenRing.hosts) and the ring -/
+/-- state = the cluster of the last `reset`: the ring (tokenRing.hosts is not consulted by the placement code any more) -/
 structure Cl where
-  hosts : List Host := []
   ring : List Entry := []
 
 def init : Cl := {}
@@ -43,15 +42,6 @@ def showFor (rr : ReplicaRing) (ts : List Int) : String :=
      | some e => showHosts e.2
      | none => "nil")))
 
-def showPlain (rr : ReplicaRing) (ts : List Int) : String :=
-  " ".intercalate (ts.map (fun t => match replicasFor rr t with
-     | some e => showHosts e.2
-     | none => "[]"))
-
-def hasDup : List Host → Bool
-  | [] => false
-  | h :: l => l.contains h || hasDup l
-
 def parseOpt (s : String) : Option (List Char × OptVal) :=
   match s.splitOn "=" with
   | [k, v] =>
@@ -84,8 +74,8 @@ def showStrategy : Strategy → String
   nts dc=rf,…                        → networkTopology.replicaMap, whole map or crash:<class>
   simplefor rf t… / ntsfor rfs t…    → per token `replicasFor` (nil or the list)
   ssimple rf t…                      → per token the replicas;  model answers with Spec.simple (proved equal)
-  snts rfs t…                        → per token the replicas or crash; model answers with Spec.nts unless the model
-                                       itself shows the recorded defects D1 (a node twice) / D2 (size-mismatch panic)
+  snts rfs t…                        → per token the replicas (or crash:<class>); model answers with Spec.nts — for every
+                                       ring: vnodes, token-less hosts, datacenters unknown to the ring / to the keyspace
   strategy <class-hex> k=v…          → getStrategy -/
 def step (s : Cl) (ws : List String) : Cl × String :=
   match ws with
@@ -94,7 +84,7 @@ def step (s : Cl) (ws : List String) : Cl × String :=
     | none => (s, "bad-op")
     | some l =>
       let ring := buildRing l
-      ({ hosts := l.map (·.1), ring := ring },
+      ({ ring := ring },
         if ring.isEmpty then "empty" else " ".intercalate (ring.map (fun e => toString e.1 ++ ":" ++ toString e.2.id)))
   | "host" :: ts =>
     match ts.mapM String.toInt? with
@@ -109,7 +99,7 @@ def step (s : Cl) (ws : List String) : Cl × String :=
   | ["nts", rfs] =>
     match parseRfs rfs with
     | none => (s, "bad-op")
-    | some rfs => (s, match ntsReplicaMap rfs s.hosts s.ring with
+    | some rfs => (s, match ntsReplicaMap rfs s.ring with
         | .ok rr => showMap rr
         | .error e => showCrash e)
   | "simplefor" :: rf :: ts =>
@@ -118,7 +108,7 @@ def step (s : Cl) (ws : List String) : Cl × String :=
     | _, _ => (s, "bad-op")
   | "ntsfor" :: rfs :: ts =>
     match parseRfs rfs, ts.mapM String.toInt? with
-    | some rfs, some ts => (s, match ntsReplicaMap rfs s.hosts s.ring with
+    | some rfs, some ts => (s, match ntsReplicaMap rfs s.ring with
         | .ok rr => showFor rr ts
         | .error e => showCrash e)
     | _, _ => (s, "bad-op")
@@ -128,11 +118,7 @@ def step (s : Cl) (ws : List String) : Cl × String :=
     | _, _ => (s, "bad-op")
   | "snts" :: rfs :: ts =>
     match parseRfs rfs, ts.mapM String.toInt? with
-    | some rfs, some ts => (s, match ntsReplicaMap rfs s.hosts s.ring with
-        | .error e => showCrash e                                  -- D2 (or any other panic) mirrored by the model
-        | .ok rr =>
-          if rr.any (fun e => hasDup e.2) then showPlain rr ts      -- D1 mirrored by the model
-          else " ".intercalate (ts.map (fun t => showHosts (Spec.nts s.ring rfs t))))
+    | some rfs, some ts => (s, " ".intercalate (ts.map (fun t => showHosts (Spec.nts s.ring rfs t))))
     | _, _ => (s, "bad-op")
   | "strategy" :: cls :: opts =>
     match Util.parseHex cls, opts.mapM parseOpt with
